@@ -19,6 +19,8 @@ type intrinsicFn func(ex *Exec, fr *frame, args []Value) Value
 
 var intrinsics = map[string]intrinsicFn{}
 
+const ottoPathC = "github.com/robertkrimen/otto"
+
 var harnessPkgs = []string{"core", "cron", "sys", "service"}
 
 func regPrim(name string, fn intrinsicFn) {
@@ -189,8 +191,15 @@ func init() {
 
 	// ---- otto boundary: compile keeps the code, run is delegated to the harness's
 	// model of the script family (vhRunJS in harness/core) ----
-	reg(rulioPath+"/core.CompileJavascript", func(ex *Exec, fr *frame, a []Value) Value {
-		code := a[3]
+	// CompileJavascript runs its real body (library lookup through the location's control,
+	// concatenation); only otto's parser is a model: (*Otto).Compile below keeps the whole
+	// program text and refuses text that carries the marker @@syntax-error@@ (which the
+	// harnesses put inside JavaScript that really does not parse).
+	reg("(*"+ottoPathC+".Otto).Compile", func(ex *Exec, fr *frame, a []Value) Value {
+		code := a[2]
+		if it, ok := code.(Iface); ok {
+			code = it.V
+		}
 		if s, ok := code.(string); ok && strings.Contains(s, "@@syntax-error@@") {
 			return Tuple{(*Value)(nil), ex.newError("compile error")}
 		}
@@ -201,7 +210,7 @@ func init() {
 		pkg := ex.w.pkgs[rulioPath+"/core"]
 		// scripts of the otto protocol family (C14) run the real RunJavascript body
 		// over the otto model below
-		if code, ok := ottoCode(a[3]); ok && ottoFamily(code) != "" {
+		if code, ok := ottoCode(a[3]); ok && ottoFamily(code) != "" && !strings.Contains(code, "@@lib-throws@@") {
 			if fn := pkg.Func("RunJavascript"); fn != nil {
 				return ex.callBody(fr, fn, a)
 			}
@@ -221,6 +230,16 @@ func init() {
 			} else if s, ok := src.V.(string); ok {
 				code = s
 			}
+		}
+		if s, ok := code.(string); ok {
+			// a compiled program is library text, a newline, the script: libraries only
+			// define things unless they carry the marker @@lib-throws@@ (inside JavaScript
+			// that really throws when loaded)
+			libs, last := ottoSplit(s)
+			if strings.Contains(libs, "@@lib-throws@@") {
+				return Tuple{Iface{}, ex.newError("Error: thrown while loading a library")}
+			}
+			code = last
 		}
 		return ex.call(fr, 0, fn, []Value{a[1], a[2], code})
 	})
@@ -1127,7 +1146,17 @@ func ottoCode(src Value) (string, bool) {
 }
 
 // ottoFamily classifies the scripts of the C14 protocol family by their (real JS) text.
+// ottoSplit separates the library text CompileJavascript puts in front of a script from the
+// script itself (the last line).
+func ottoSplit(code string) (libs, script string) {
+	if i := strings.LastIndex(code, "\n"); i >= 0 {
+		return code[:i], code[i+1:]
+	}
+	return "", code
+}
+
 func ottoFamily(code string) string {
+	_, code = ottoSplit(code)
 	switch strings.TrimSpace(code) {
 	case "1+1":
 		return "value"
